@@ -59,7 +59,7 @@ def gen_model(rng, idx):
   import tensorflow.keras.layers as L
   from tensorflow.keras import Model, Input
   import qkeras
-  kind = int(rng.integers(0, 3))
+  kind = idx % 3            # dense / conv2d / conv1d models in rotation
   if kind == 0:
     inp = Input((6,), name=f"i{idx}")
     x = inp
@@ -82,11 +82,11 @@ def gen_model(rng, idx):
                                     pointwise_quantizer=pickw(rng), bias_quantizer=pick(rng, WQ[:6] + [None]), name=f"sp{idx}_{j}")(x)
       if rng.integers(0, 2):
         x = qkeras.QActivation(act_arg(rng), name=f"a{idx}_{j}")(x)
-    if rng.integers(0, 2):
-      x = qkeras.QAveragePooling2D(pick(rng, [2, (2, 1), (1, 2)]), average_quantizer=pick(rng, ["quantized_bits(8,0,1)", "quantized_bits(6,0,1)", None]),
-                                   activation=pick(rng, [None, "quantized_bits(3,0,1)", "quantized_relu(4,1)"]), name=f"p{idx}")(x)
-    x = qkeras.QGlobalAveragePooling2D(average_quantizer=pick(rng, ["quantized_bits(8,0,1)", None]),
-                                       activation=pick(rng, [None, "quantized_bits(3,0,1)", "quantized_relu(4,1)"]), name=f"g{idx}")(x) if rng.integers(0, 2) \
+    pk = idx // 3                # pooling options in rotation: (average quantizer, activation) pairs never left to chance
+    aqs, acts_ = ["quantized_bits(8,0,1)", None, "quantized_bits(6,0,1)"], ["quantized_bits(3,0,1)", None, "quantized_relu(4,1)", None]
+    if pk % 2 == 0:
+      x = qkeras.QAveragePooling2D(pick(rng, [2, (2, 1), (1, 2)]), average_quantizer=aqs[(pk // 2) % 3], activation=acts_[(pk // 2) % 4], name=f"p{idx}")(x)
+    x = qkeras.QGlobalAveragePooling2D(average_quantizer=aqs[(pk + 1) % 3], activation=acts_[(pk + 1) % 4], name=f"g{idx}")(x) if pk % 3 != 2 \
         else L.Flatten(name=f"f{idx}")(x)
   else:
     inp = Input((10, 3), name=f"i{idx}")
